@@ -162,7 +162,9 @@ def setDefinition(pattern: str, flags: str, replacement: str) -> None:
         flgs |= re.MULTILINE
     try:
         regexp = re.compile(pattern, flgs)
-    except (re.error, OverflowError):
+    except (re.error, OverflowError, ValueError, RecursionError):
+        # The pattern parser also raises ValueError (a repeat count of thousands of digits) and
+        # RecursionError (thousands of nested groups).
         options.errorCallback(f"illegal replacement regular expression: /{pattern}/{flags}='{replacement}'")
         return
     d = getDefinition(pattern)
